@@ -18,8 +18,9 @@ pub struct Case {
     pub xf: Xf,
     /// ring start rotation for the winding checks
     pub rot: u8,
-    /// repeat the vertices around the lexicographically least vertex
-    pub dup: bool,
+    /// repeated points: bit 0 pivot (least vertex) once more, bit 1 pivot twice more, bit 2 the vertex after it,
+    /// bit 3 the vertex before it, bit 4 an extra copy of the closing vertex
+    pub dup: u8,
 }
 
 pub struct C05;
@@ -100,7 +101,7 @@ impl Property for C05 {
             3 => geom_strategy(),
             2 => proptest::collection::vec(prop_oneof![areal_strategy(), geom_strategy()], 0..4).prop_map(G::Coll),
         ];
-        (geom, any::<u32>(), xf_strategy(), any::<u8>(), any::<bool>())
+        (geom, any::<u32>(), xf_strategy(), any::<u8>(), prop_oneof![3 => Just(0u8), 2 => 0u8..32])
             .prop_map(|(g, flips, xf, rot, dup)| Case { g: flip_rings(&g, flips), xf, rot, dup })
             .boxed()
     }
@@ -187,16 +188,30 @@ impl Property for C05 {
                 let n = r.len() - 1;
                 let mut open: Vec<C> = r[..n].to_vec();
                 open.rotate_left(c.rot as usize % n);
-                if c.dup {
+                if c.dup & 31 != 0 {
                     let li = (0..n).min_by_key(|i| open[*i]).unwrap();
-                    let v = open[li];
-                    open.insert(li, v);
-                    let nx = (li + 2) % open.len();
-                    let w = open[nx];
-                    open.insert(nx, w);
+                    let (v, nx, pv) = (open[li], open[(li + 1) % n], open[(li + n - 1) % n]);
+                    let mut out: Vec<C> = vec![];
+                    for (k, p) in open.iter().enumerate() {
+                        if k == (li + n - 1) % n && c.dup & 8 != 0 && n > 1 {
+                            out.push(pv);
+                        }
+                        out.push(*p);
+                        if k == li {
+                            if c.dup & 1 != 0 { out.push(v); }
+                            if c.dup & 2 != 0 { out.push(v); out.push(v); }
+                        }
+                        if k == (li + 1) % n && c.dup & 4 != 0 {
+                            out.push(nx);
+                        }
+                    }
+                    open = out;
                 }
                 let f = open[0];
                 open.push(f);
+                if c.dup & 16 != 0 {
+                    open.push(f);
+                }
                 // position of the least vertex in the transformed frame
                 let tc: Vec<geo::Coord<f64>> = open.iter().map(|p| c.xf.apply(*p)).collect();
                 let li = (0..tc.len()).min_by(|a, b| (tc[*a].x, tc[*a].y).partial_cmp(&(tc[*b].x, tc[*b].y)).unwrap()).unwrap();
